@@ -3,7 +3,25 @@
 
    Vocabulary (proofs/TextSpec.v): [unescape T] -- a backslash makes the next character literal;
    [bal 0 T] -- the braces of T balance modulo escapes, `$` occurs only escaped, no dangling backslash;
-   [wrap_lines ls] -- the non-blank lines, trimmed, in order. *)
+   [wrap_lines ls] -- the non-blank lines, trimmed, in order.
+
+   Full statement (kept visible): text written in `{...}` becomes the content of its element character
+   for character (balanced inner braces kept, a backslash makes the next character literal, operator
+   characters have no effect) and precedes the element's children; with wrap lines, an implicit repeater
+   X* yields one copy of X per non-blank line, in order, each with that trimmed line at every `$#` or
+   appended once to the deepest last element; without an implicit repeater the whole text is inserted
+   once into the deepest last element; supplied text is never interpreted as syntax or numbering.
+
+   What is proved for ALL inputs: C04_text_literal (front end on name{T}, every balanced payload),
+   C04_wrap_plain (every tree without `$#`/implicit repeater, every text), C04_deepest_last_element (every
+   forest), C04_wrap_text_leaf (X = name{text with or without `$#`}, every line list),
+   C04_placeholder_total, C04_group_bracket_text, C04_text_not_reparsed + C04_lines_keep_characters +
+   C04_push_string_verbatim (stream), C04_children_after_text (formatter).
+   _partial: C04_wrap_implicit_partial is parametric in how X converts and assumes X leaves the converter
+   state alone (no nested repeater inside X); C04_quoted_scanner_partial is the scanner inside quoted
+   attribute values only -- the composition for attribute positions (quoted / unquoted / expression
+   values) and text on elements inside larger statements (beyond the parser block C04_text_block) is
+   covered by the model/implementation correspondence and the oracle, not by a theorem. *)
 From Coq Require Import String.
 From Emmet Require Import lib.Base lib.StrLit model.MarkupTokenizer model.MarkupParser model.MarkupConvert
      model.MarkupResolve proofs.ParserSpine proofs.TextSpec proofs.TextProofs proofs.TextParse proofs.TextLiteral
